@@ -63,7 +63,7 @@ def observe_route(SSF, handler, path, q):
 def transparency(ctx, tier, rng):
     BaseHandler, SSF = load()
     cases = []
-    n_ds = 25 if tier == "quick" else 250
+    n_ds = 60 if tier == "quick" else 500
     for _ in range(n_ds):
         spec = G.gen_dataset(rng)
         sx = G.ds_sexp(spec)
@@ -126,7 +126,7 @@ def mean_checks(ctx, tier, rng):
     BaseHandler, SSF = load()
     from pydap.client import open_url
     cases = []
-    n = 60 if tier == "quick" else 600
+    n = 250 if tier == "quick" else 2500
     for _ in range(n):
         ds, info = mean_dataset(rng)
         app = SSF(BaseHandler(ds))
@@ -275,7 +275,7 @@ def bounds_checks(ctx, tier, rng):
     BaseHandler, SSF = load()
     from pydap.model import BaseType, DatasetType, SequenceType
     cases = []
-    n = 80 if tier == "quick" else 800
+    n = 300 if tier == "quick" else 3000
     for _ in range(n):
         ncols = rng.randint(1, 5)
         axes = [rng.choice(["x", "y", "z", "-", "-"]) for _ in range(ncols)]
@@ -298,8 +298,14 @@ def bounds_checks(ctx, tier, rng):
         args = ",".join(map(str, iv)) + ",00Z01JAN1970,00Z01JAN1970"
         pos = rng.choice(["selection", "projection", "selection+cols"])
         cols_req = list(range(ncols))
+        extra = None
         if pos == "selection":
             q = "s&bounds(%s)" % args
+            if rng.random() < 0.4:   # an ordinary clause beside the call must still be applied (it travels in the inner request)
+                extra = (rng.randrange(ncols), rng.randint(-3, 5))
+                q = rng.choice(["s&s.%s>=%d&bounds(%s)", "s&bounds(%%s)&s.%s>=%d"]) if False else q
+                q = "s&s.%s>=%d&bounds(%s)" % (names[extra[0]], extra[1], args) if rng.random() < 0.5 else \
+                    "s&bounds(%s)&s.%s>=%d" % (args, names[extra[0]], extra[1])
         elif pos == "projection":
             q = "bounds(%s)" % args
         else:
@@ -310,6 +316,9 @@ def bounds_checks(ctx, tier, rng):
         case = {"kind": "bounds", "axes": axes, "rows": rows, "intervals": iv, "query": q, "cols": cols_req}
         lohi = {"x": (iv[0], iv[1]), "y": (iv[2], iv[3]), "z": (iv[4], iv[5])}
         want = [r for r in rows if all(a == "-" or lohi[a][0] <= r[i] <= lohi[a][1] for i, a in enumerate(axes))]
+        if extra:
+            want = [r for r in want if r[extra[0]] >= extra[1]]
+            case["extra"] = list(extra)
         if res["exc"] or res["status"] != 200 or res["body_exc"]:
             ctx.oracle_fail("bounds request failed", case, res["exc"] or res["body_exc"] or (res["body"] or b"")[-300:].decode("utf-8", "replace"),
                             "status 200", size=len(rows) * ncols)
@@ -327,7 +336,7 @@ def bounds_checks(ctx, tier, rng):
         ctx.count(("bounds", repr(axes), repr(rows), repr(iv), pos), True,
                   tag="bounds|%s|%s|kept%s" % (pos, "degenerate" if degenerate else "interval", "0" if not want else "all" if len(want) == len(rows) else "some"),
                   sample={"query": q, "axes": axes})
-        if pos != "selection+cols":
+        if pos != "selection+cols" and not extra:
             cases.append(("ssf-bounds (%s) (%s) (%s)" % (" ".join(axes), " ".join(map(str, iv)), " ".join("(%s)" % " ".join(map(str, r)) for r in rows)),
                           "(%s)" % " ".join("(%s)" % " ".join(map(str, r)) for r in got), case))
     ctx.correspond("bounds (rows kept, order)", cases)
@@ -382,7 +391,8 @@ def replay(payload):
         res = G.run_request(SSF(BaseHandler(ds)), "/d.dods", q)
         iv = c["intervals"]
         lohi = {"x": (iv[0], iv[1]), "y": (iv[2], iv[3]), "z": (iv[4], iv[5])}
-        want = [[r[i] for i in c["cols"]] for r in c["rows"] if all(a == "-" or lohi[a][0] <= r[i] <= lohi[a][1] for i, a in enumerate(c["axes"]))]
+        want = [[r[i] for i in c["cols"]] for r in c["rows"] if all(a == "-" or lohi[a][0] <= r[i] <= lohi[a][1] for i, a in enumerate(c["axes"]))
+                and (not c.get("extra") or r[c["extra"][0]] >= c["extra"][1])]
         if res["exc"] or res["status"] != 200 or res["body_exc"]:
             print("request failed:", res["exc"] or res["status"])
             return False
@@ -419,4 +429,19 @@ def replay(payload):
     pre = 3 if (q.startswith("w,") or q.endswith(",w")) else 0
     got = [float(x) for x in vals[pre:pre + len(want)]]
     print("observed", got[:12], "expected", want[:12])
-    return len(got) == len(want) and all(abs(a_ - b_) <= 1e-9 * max(1, abs(b_)) for a_, b_ in zip(got, want))
+    import re
+    dims = list(info["dims"] if c["target"] != "a" else info["a_dims"])
+    mapnames = list(info["dims"])
+    for k in c["axes"]:
+        if dims:
+            del dims[k]
+        del mapnames[k]
+    m = re.search(r"Float(?:64|32) (?:a|v)((?:\[[^\]]*\])*);", head.decode("ascii"))
+    got_dims = [x.split("=")[0].strip() for x in re.findall(r"\[([^\]]*)\]", m.group(1)) if "=" in x] if m else None
+    dims_ok = (not dims) or got_dims == dims
+    if c["target"] == "g":
+        got_maps = [e_[0].split(".")[1] for e in decl if e[0] == "g" for e_ in e[2][1:]]
+        dims_ok = dims_ok and got_maps == mapnames
+    print("dimensions/maps", "as expected" if dims_ok else "WRONG: %s" % got_dims)
+    tol = 1e-5 if info.get("dt") == "f4" else 1e-9
+    return dims_ok and len(got) == len(want) and all(abs(a_ - b_) <= tol * max(1, abs(b_)) for a_, b_ in zip(got, want))
